@@ -174,6 +174,7 @@ PROPS = {
                     'empties the own memo; Model.memoize writes a key only when absent and returns the stored value otherwise (single value per '
                     '(element, time), stochastic or not, whichever equations are requested in whichever order)',
         assumptions=['array expansion helper _handle_arrayed and the text generators do not write memo entries (assumed contracts; generators are under K2 in C01)',
+                     'K1 encodes `==` between dynamically typed values as equality: an overloaded __eq__ that returns a truthy object (SD DSL elements) is outside the encoding; edits that compare elements are covered by the native search only',
                      'eval(text) treated as an opaque value; Python semantics of the subset; SINGLE-THREADED execution'],
         not_decided=['NOT DECIDED: all schedules of the per-equation worker threads (SdSimulation.__simulate_equations): the check-then-compute-then-store window in memoize is a data race a sequential verifier cannot see',
                      'not decided: "equals a freshly built model" as a relation; it follows on paper from empty memo + C01 and is exercised by the native harness']),
